@@ -50,16 +50,20 @@ def globset_origin(ctx, rule):
     """the origin the CLI filterer works from is the project origin - the same value ignore discovery starts from - not the working directory (shared with C03)"""
     wn = body_of(ctx, rule, "watchexec_cli::filterer::WatchexecFilterer::new")
     loc = wn.loc(wn.line)
-    gf = [n for c, n in thir.calls_in(thir.root(wn)) if strip_generics(c).endswith("GlobsetFilterer::new")]
-    plets = [pathx.desc(st["i"]).replace("^", "") for st in thir.walk(thir.root(wn)) if isinstance(st, dict) and st.get("k") == "let" and st["p"].get("k") == "bind"
-             and st["p"].get("n") == "project_origin" and isinstance(st.get("i"), dict)]
-    a0 = pathx.desc(gf[0]["a"][0]).replace("^", "").lstrip("&") if len(gf) == 1 and gf[0]["a"] else None
-    vt = [pathx.desc(n["a"][0]).replace("^", "").lstrip("&") for c, n in thir.calls_in(thir.root(wn)) if strip_generics(c).endswith("dirs::vcs_types") and n.get("a")]
-    okpo = len(plets) == 1 and "args.filtering.project_origin" in plets[0] and "workdir" not in plets[0] and a0 in ("project_origin", "Clone::clone(project_origin)") \
-        and all(v == "project_origin" for v in vt)
-    ctx.require(okpo, rule, "globset-origin", "the filterer's origin (and the VCS type detection) is the project origin from the arguments", loc,
-                detail="project_origin = %s; GlobsetFilterer::new(%s, ..); vcs_types(%s)" % (plets, a0, vt),
-                fail="the filterer is rooted at %s instead of the project origin: ignore files discovered from the project origin are matched relative to a different root" % a0)
+    root = thir.root(wn)
+    gf = [n for c, n in thir.calls_in(root) if strip_generics(c).endswith("GlobsetFilterer::new")]
+    vtn = [n for c, n in thir.calls_in(root) if strip_generics(c).endswith("dirs::vcs_types") and n.get("a")]
+    pathx.SUBST = pathx.let_substitutions(root)      # locals bound once are read through to their initialiser
+    try:
+        a0 = pathx.desc(gf[0]["a"][0]).replace("^", "") if len(gf) == 1 and gf[0]["a"] else ""
+        vt = [pathx.desc(n["a"][0]).replace("^", "") for n in vtn]
+    finally:
+        pathx.SUBST = {}
+    def is_po(d):
+        return "args.filtering.project_origin" in d and "workdir" not in d and "Path::parent" not in d and "Path::join" not in d
+    ctx.require(is_po(a0) and all(is_po(v) for v in vt), rule, "globset-origin", "the filterer's origin (and the VCS type detection) is the project origin from the arguments", loc,
+                detail="GlobsetFilterer::new(%s, ..); vcs_types(%s)" % (a0, vt),
+                fail="the filterer is rooted at `%s` instead of the project origin: ignore files discovered from the project origin are matched relative to a different root" % a0)
 
 
 def run(ctx):
